@@ -1,1 +1,99 @@
-// harness file batcher (included under cfg(kani) from /repo)
+// C16 — hook H3: `crate::protocol::context::batcher::verif_kani` (Batcher is pub(super), `Ready` and
+// `is_ready_for_validation` are private to the file).
+//
+// Decided: the synchronous bookkeeping that decides WHO validates a batch and WHEN: under a
+// SYMBOLIC arrival order of all records, `Ready::Yes` is produced exactly once per batch, at the
+// arrival that completes the batch, with the right index and the batch object built for that
+// index; all earlier arrivals get `Ready::No`.  The validation closure is only invoked on the
+// `Ready::Yes` arm, so "each batch is checked exactly once" follows.  Misuse is rejected loudly.
+// NOT decided: the verdict fan-out through tokio::sync::watch (the Kani compiler ICEs on it).
+use super::*;
+use crate::verif_kani::common::*;
+
+/// `watch::channel` drops its initial receiver, which wakes (non-existent) waiters through
+/// tokio's Notify; nothing is ever parked in these harnesses, so waking is a no-op.
+pub(crate) fn notify_waiters_nop(_n: &tokio::sync::Notify) {}
+
+fn new_batcher<'a>(rpb: usize, total: usize) -> Batcher<'a, usize> {
+    // the batch object is its own index, so a mixed-up batch is visible
+    let total = match std::num::NonZeroUsize::new(total) {
+        Some(t) => TotalRecords::Specified(t),
+        None => {
+            kani::assume(false);
+            unreachable!()
+        }
+    };
+    let m = Batcher::new(rpb, total, Box::new(|i: usize| i));
+    match m.into_inner() {
+        Ok(b) => b,
+        Err(e) => {
+            std::mem::forget(e);
+            kani::assume(false);
+            unreachable!()
+        }
+    }
+}
+
+macro_rules! arrival_orders {
+    ($name:ident, $rpb:expr, $total:expr, $unw:literal) => {
+        harness! {
+            #[kani::unwind($unw)]
+            #[kani::stub(tokio::sync::Notify::notify_waiters, crate::protocol::context::batcher::verif_kani::notify_waiters_nop)]
+            fn $name() {
+                const RPB: usize = $rpb;
+                const T: usize = $total;
+                const NB: usize = (T + RPB - 1) / RPB;
+                let mut b = new_batcher(RPB, T);
+                // symbolic permutation of the record ids 0..T
+                let order: [usize; T] = kani::any();
+                let mut seen = [false; T];
+                let mut arrived = [0usize; NB];
+                let mut yes = [0usize; NB];
+                let mut i = 0;
+                while i < T {
+                    let r = order[i];
+                    kani::assume(r < T && !seen[r]);
+                    seen[r] = true;
+                    let bi = r / RPB;
+                    let size = if (bi + 1) * RPB <= T { RPB } else { T - bi * RPB };
+                    arrived[bi] += 1;
+                    match b.is_ready_for_validation(RecordId::from(r)) {
+                        Ok(Ready::Yes { batch_index, batch }) => {
+                            assert!(batch_index == bi, "the batch of the completing record");
+                            assert!(batch.batch == bi, "the batch object built for that index");
+                            assert!(arrived[bi] == size, "released only when every record of the batch has arrived");
+                            assert!(yes[bi] == 0, "each batch is released for validation once");
+                            yes[bi] += 1;
+                            std::mem::forget(batch);
+                        }
+                        Ok(Ready::No(rx)) => {
+                            assert!(arrived[bi] < size, "the completing arrival must trigger validation");
+                            std::mem::forget(rx);
+                        }
+                        Err(e) => {
+                            std::mem::forget(e);
+                            assert!(false, "in-range records are never rejected");
+                        }
+                    }
+                    i += 1;
+                }
+                let mut k = 0;
+                while k < NB {
+                    assert!(yes[k] == 1, "every batch (incl. the final partial one) was released");
+                    k += 1;
+                }
+                assert!(b.is_empty(), "nothing is left behind");
+                kani::cover!(order[0] == T - 1); // last record first: out-of-order batch completion
+                std::mem::forget(b);
+            }
+        }
+    };
+}
+
+arrival_orders!(t16_arrival_orders_rpb2_total3, 2, 3, 5);
+arrival_orders!(t16_arrival_orders_rpb1_total2, 1, 2, 4);
+arrival_orders!(t16_arrival_orders_rpb2_total2, 2, 2, 4);
+arrival_orders!(t16_arrival_orders_rpb1_total3, 1, 3, 5);
+arrival_orders!(t16_arrival_orders_rpb2_total4, 2, 4, 6);
+arrival_orders!(t16_arrival_orders_rpb2_total5, 2, 5, 7);
+arrival_orders!(t16_arrival_orders_rpb3_total5, 3, 5, 7);
